@@ -32,6 +32,7 @@ def run(ctx):
     run.assumptions = ["member sources honour _composite_filters (C12.all-answers-filtered decides it for memory/filesystem)"]
     ctx.do(rule_member_forward)
     ctx.do(rule_composite_kept_whole)
+    ctx.do(rule_sources_always_truthy)
     ctx.do(rule_dedup)
     ctx.do(rule_navigation_over_union)
     ctx.do(rule_newest)
@@ -159,6 +160,40 @@ def rule_composite_kept_whole(ctx, rule_id="C18.member-forward"):
     run.ok(rule_id, key(cls.module.relpath, cls.qualname, "members-read-only-inside"), "%d reads, all inside the class" % inside)
 
 
+def rule_sources_always_truthy(ctx, rule_id="C18.member-forward"):
+    """Environment.__init__ (and whoever else wires sources together) decides "was a source given?" by TRUTHINESS (`if source:`).
+    That is sound only while no data source / sink / store class defines __len__ or __bool__: a source that is falsy when it is
+    empty is silently not attached -- the environment then answers "no data source", or ignores that member, for a source
+    that is filled later."""
+    from .C08 import _bool_uses
+    run = ctx.run
+    prog = ctx.prog
+    tests = []
+    for fi in prog.functions.values():
+        if fi.module.relpath.startswith("stix2/test") or not fi.module.name.startswith(("stix2.environment", "stix2.datastore", "stix2.workbench")):
+            continue
+        for p_ in fi.all_param_names():
+            if p_ in ("source", "sink", "store", "data_source", "data_sources"):
+                if _bool_uses(fi.node, p_):
+                    tests.append("%s:%s" % (fi.qualname, p_))
+    bases = [prog.cls(DS + "::DataSource"), prog.cls(DS + "::DataSink"), prog.cls(DS + "::DataStoreMixin")]
+    offenders = []
+    for cls in prog.classes.values():
+        if cls.module.relpath.startswith("stix2/test") or not any(b_ in (cls.mro or []) for b_ in bases):
+            continue
+        for m_ in ("__len__", "__bool__"):
+            if m_ in cls.methods:
+                offenders.append("%s.%s" % (cls.qualname, m_))
+    if not tests:
+        run.ok(rule_id, key("stix2/environment.py", "<sources>", "sources-are-always-truthy"), "no truthiness test on a source any more")
+        return
+    run.check(not offenders, rule_id, key("stix2/datastore/__init__.py", "<sources>", "sources-are-always-truthy"),
+              "a data source / sink / store class defines %s while %s decide 'was one given?' by truthiness: an EMPTY source is "
+              "treated as absent and never attached" % (", ".join(offenders), ", ".join(sorted(tests)[:3])),
+              file="stix2/datastore/__init__.py", line=1, function="<sources>", expected="no __len__ / __bool__ on sources (or `is not None` tests)",
+              found=offenders)
+
+
 def _helper_combination(prog, fi, cf):
     """cf (the value handed to the members) is defined by `self.<helper>(...)`: (self attributes, caller parameters the helper's
     result derives from under this call's binding, every return a fresh FilterSet?, text) -- None when no helper is involved"""
@@ -243,6 +278,16 @@ def rule_navigation_over_union(ctx):
     txt = norm(rl.node)
     dedup = any(isinstance(r.value, ast.Call) and call_simple_name(r.value) == "deduplicate" for r in returns_of(rl))
     excl = "Filter('source_ref', '!=', " in txt or "Filter('target_ref', '!=', " in txt
+    # the exclusion applies only when BOTH queries run: it sits under a test that the other direction was asked too (alone, the
+    # target_ref query is the only one that can find a self-loop, and excluding it there loses the relationship)
+    if excl and not dedup:
+        ex_nodes = [c for c in body_walk(rl.node) if isinstance(c, ast.Call) and call_simple_name(c) == "Filter" and len(c.args) == 3
+                    and isinstance(c.args[1], ast.Constant) and c.args[1].value == "!="]
+        for c in ex_nodes:
+            gc = [(norm(tt), pol) for tt, pol, _ in guard_chain(c)]
+            other = "target_only" if "source_ref" in norm(c.args[0]) else "source_only"
+            if not any((tt == "not " + other and pol) or (tt == other and not pol) for tt, pol in gc):
+                excl = False
     run.check(len(qs) >= 2 and (dedup or excl), R, key(rl.module.relpath, rl.qualname, "self-loop-once"),
               "a relationship whose source and target are the same object matches both the source_ref and the target_ref query and "
               "is returned twice (through a composite it comes back once)", file=rl.module.relpath, line=rl.node.lineno,
